@@ -41,12 +41,13 @@ VARIABLES
   reps,    \* monitor: set of <<t, r, v>>  every (non-repeated) report
   reached, \* monitor: set of <<t, r>>     reports at which the trial reached a milestone
   latest,  \* monitor: [Trials -> last level reported in a way that counts (not a re-report after a restart)]
+  tie,     \* monitor: some decision so far was taken at an exact tie (metric = cutoff): either outcome was legal
   pobs,    \* searcher state: set of <<t, r>> with an observation   (program / bound from the log)
   ppend,   \* searcher state: set of <<t, r>> pending               (program / bound from the log)
   lur,     \* program: largest_update_resource per trial (0 = none)
   fresh    \* the searcher state variables are up to date with the other variables
 
-sdV  == <<reps, reached, latest>>
+sdV  == <<reps, reached, latest, tie>>
 ssV  == <<pobs, ppend, lur, fresh>>
 vars == <<cf, st, lastr, rung, br, ms, rf, cap, thr, nstart, flags, sdV, ssV>>
 
@@ -133,7 +134,8 @@ EvStart(t, b, mval) ==
   /\ st' = [st EXCEPT ![t] = "running"] /\ lastr' = [lastr EXCEPT ![t] = 0]
   /\ br' = [br EXCEPT ![t] = b] /\ ms' = [ms EXCEPT ![t] = FirstMilestone(b)] /\ rf' = [rf EXCEPT ![t] = 0]
   /\ nstart' = nstart + 1
-  /\ UNCHANGED <<cf, rung, cap, thr, sdV>>
+  /\ tie' = (tie \/ (IsPromotion /\ \E lv \in ScanLevels(SysOf(b)) : \E e \in Unpromoted(SysOf(b), lv) : EligVerdict(SysOf(b), lv, e) = "tie"))
+  /\ UNCHANGED <<cf, rung, cap, thr, reps, reached, latest>>
 
 \* suggest() resumed trial t from rung level `from`, to run until `to`; b = bracket sampled
 EvPromote(t, from, to, b, mval) ==
@@ -156,7 +158,8 @@ EvPromote(t, from, to, b, mval) ==
   /\ st' = [st EXCEPT ![t] = "running"]
   /\ lastr' = [lastr EXCEPT ![t] = IF cf.ckpt THEN from ELSE 0]
   /\ br' = [br EXCEPT ![t] = b] /\ ms' = [ms EXCEPT ![t] = to] /\ rf' = [rf EXCEPT ![t] = from]
-  /\ UNCHANGED <<cf, cap, thr, nstart, sdV>>
+  /\ tie' = (tie \/ \E lv \in ScanLevels(s) : \E e \in Unpromoted(s, lv) : EligVerdict(s, lv, e) = "tie")
+  /\ UNCHANGED <<cf, cap, thr, nstart, reps, reached, latest>>
 
 \* expected decision of a stopping-type report: set of allowed decisions
 StopAllowed(t, r, v, S1) ==     \* S1 = rung contents including the new entry (or {} if no rung is entered)
@@ -204,6 +207,8 @@ EvReport(t, r, v, c, d, capNow) ==
   /\ reached' = IF cf.sd = "none" THEN reached ELSE IF (IsPromotion /\ r = ms[t]) \/ (~IsPromotion /\ (r >= cf.maxt \/ (r \in OwnLevels(br[t]) /\ ~InRung(t, s, r))))
                    THEN reached \cup {<<t, r>>} ELSE reached
   /\ latest' = IF cf.sd = "none" \/ (IsPromotion /\ rf[t] > 0 /\ r <= rf[t]) THEN latest ELSE [latest EXCEPT ![t] = r]
+  /\ tie' = (tie \/ (~IsPromotion /\ r < cf.maxt /\ r \in OwnLevels(br[t]) /\ ~InRung(t, s, r)
+                      /\ RungVerdict(rung[<<s, r>>] \cup {[t |-> t, v |-> v, c |-> c, p |-> FALSE]}, r, v) = "tie"))
   /\ UNCHANGED <<cf, br, ms, rf, nstart>>
 
 \* on_trial_error(t): the run crashed
@@ -229,6 +234,12 @@ EvCrash ==
   /\ flags' = flags \cup {"scheduler_raised"}
   /\ UNCHANGED <<cf, st, lastr, rung, br, ms, rf, cap, thr, nstart, sdV>>
 
+\* C15: the twin run (other mode, negated metrics) answered differently; excused only if some decision so far was an
+\* exact tie (the property exempts thresholds within round-off of a metric value)
+EvDiverge ==
+  /\ flags' = flags \cup Flag(~tie, "twin_diverged")
+  /\ UNCHANGED <<cf, st, lastr, rung, br, ms, rf, cap, thr, nstart, sdV>>
+
 \* the searcher's data set read back after a call: obs = Seq of <<t, r, v>> (v in the reported convention),
 \* pend = Seq of <<t, r>>
 EvSearcherState(obs, pend) ==
@@ -252,6 +263,7 @@ PendingNotObserved   == (fresh /\ cf.sd # "none") => ppend \cap pobs = {}
 ObsOnceAndTrue       == NoFlag("obs_duplicate") /\ NoFlag("obs_value") /\ NoFlag("pending_duplicate")
 
 NeverRaises == NoFlag("scheduler_raised")
+SameAsTwin  == NoFlag("twin_diverged")
 \* C03
 EnterRungOnce        == NoFlag("rung_contents")
 DecideOnlyAtOwnRungs == NoFlag("decide_off_rung") /\ NoFlag("pause_in_stopping")
@@ -279,7 +291,7 @@ InitCommon(c) ==
   /\ cap = c.cap0
   /\ thr = [lv \in SetOfSeq(c.levels) |-> NoVal]
   /\ nstart = 0 /\ flags = {}
-  /\ reps = {} /\ reached = {} /\ latest = [t \in Trials |-> 0]
+  /\ reps = {} /\ reached = {} /\ latest = [t \in Trials |-> 0] /\ tie = FALSE
   /\ pobs = {} /\ ppend = {} /\ lur = [t \in Trials |-> 0] /\ fresh = TRUE
 
 \* Rung.quantile + the comparison of StoppingRungSystem._task_continues
